@@ -836,6 +836,29 @@ impl<'c, Q: Queue> Interp<'c, Q> {
         if d.eq_q(&self.q) || self.q.eq_q(&d) {
             self.fail(Group::EqClone, "eq_ignores_item", "queue compares equal to itself plus one item".into());
         }
+        // the same content held under another hasher state (for the run-time selectable hasher another
+        // kind of hasher altogether: the two degenerate ones are partners) must compare equal
+        if self.model.len() <= 300 {
+            let partner = match self.case.hasher {
+                HasherKind::Colliding => HasherKind::Coarse,
+                HasherKind::Coarse => HasherKind::Colliding,
+                HasherKind::Fixed => HasherKind::Xx,
+                HasherKind::Xx => HasherKind::OneShot,
+                _ => HasherKind::Fixed,
+            };
+            let mut o = Q::construct(CtorHow::WithHasher, partner);
+            for (id, tag, p) in self.model.elems().into_iter().rev() {
+                o.push(Key::new(id, tag), Prio::new(p));
+            }
+            if !o.eq_q(&self.q) || !self.q.eq_q(&o) || o.ne_q(&self.q) {
+                self.fail(
+                    Group::EqClone,
+                    "same_content_other_hasher_ne",
+                    format!("the same {} pairs held under hasher {:?} and under {:?} compare unequal", self.model.len(), self.case.hasher, partner),
+                );
+            }
+            self.stats.hit("eq_other_hasher");
+        }
         // Debug formatting is a safe public call too
         if self.model.len() <= 64 {
             let d = self.q.debug_string();
